@@ -77,7 +77,7 @@ def run(chk):
     chk.design("RegionsDesign", "RegionsDesign.cfg", expect_actions=("AddCore",))
     traces = []
     targets = gen_targets(rng, chk)
-    for rep in range(chk.pick(40, 400)):           # random medium-density sets in a small window
+    for rep in range(chk.pick(40, 1500)):           # random medium-density sets in a small window
         x0, y0 = rng.randrange(0, 240), rng.randrange(0, 240)
         t = {}
         for _ in range(rng.randint(1, 120)):
@@ -91,7 +91,7 @@ def run(chk):
         chk.note_case(tg, nontrivial=len(tg) > 1)
     # the caller's own history: one dictionary object, changed in place between calls (a core added to / removed
     # from a chip's set, a set replaced, a chip added) - the answer is a function of the argument's CONTENTS
-    for rep in range(chk.pick(60, 400)):
+    for rep in range(chk.pick(60, 1500)):
         t = {k: set(v) for k, v in rng.choice(targets).items()} or {(3, 3): {1}}
         evs = []
         for step in range(4):
@@ -111,7 +111,7 @@ def run(chk):
                 t[((xy[0] + 1) % 256, xy[1])] = {rng.randrange(18)}
         traces.append(dict(ev=evs, label="one dictionary changed in place between calls"))
     evs = []
-    for _ in range(chk.pick(300, 3000)):
+    for _ in range(chk.pick(300, 10000)):
         x, y, lv = rng.randrange(256), rng.randrange(256), rng.randrange(4)
         evs.append(["chip", x, y, lv, word_bytes(regions.get_region_for_chip(x, y, lv))])
         chk.note_case(("chip", x, y, lv))
@@ -124,7 +124,7 @@ def run(chk):
     from ..core import MachineryError
     import re
     r = tlcmod.run_tlc("RegionsSim", "RegionsSim.cfg", workers=1, timeout=600,
-                       simulate="num=%d" % chk.pick(60, 600), depth=70, seed=chk.seed + 1)
+                       simulate="num=%d" % chk.pick(60, 2000), depth=70, seed=chk.seed + 1)
     chk.jobs.append(dict(job="S", module="RegionsSim", cfg="RegionsSim.cfg", **r.summary()))
     if not r.ok or not r.infos:
         raise MachineryError("simulation of RegionsSim failed: %s" % (r.error or "no behaviour printed"))
